@@ -160,6 +160,7 @@ var ocspAlphabet = []string{
 	"good-unrelated-key", "good-embedded-foreign",
 	"good-expired", "good-no-nextupdate", "revoked-expired", "good-thisupdate-future",
 	"good-other-serial",
+	"revoked-reason-hold", "revoked-reason-remove-from-crl", "revoked-reason-unspecified", "revoked-reason-aa-compromise", "revoked-reason-hold-at-after-signing",
 	"revoked-at-after-signing", "revoked-at-after-signing-inv-malformed", "revoked-at-after-signing-inv-before", "revoked-at-equal-signing",
 	"revoked-inv-before", "revoked-inv-equal", "revoked-inv-after", "revoked-inv-malformed", "revoked-inv-trailing",
 	"good-inv-after", "unknown-inv-after", "revoked-delegate-noeku-inv-after",
@@ -230,6 +231,19 @@ func (c *ocspCtx) behaviour(label string) *httpBehaviour {
 		spec.ThisUpdate = c.now.Add(30 * time.Minute)
 	case "good-other-serial":
 		spec.Serial = big.NewInt(424242)
+	case "revoked-reason-hold":
+		// a revocation is a revocation whatever its reason (OCSP has no "temporarily"): certificateHold
+		spec.Reason = ocsp.CertificateHold
+	case "revoked-reason-remove-from-crl":
+		spec.Reason = ocsp.RemoveFromCRL
+	case "revoked-reason-unspecified":
+		spec.Reason = -1
+	case "revoked-reason-aa-compromise":
+		spec.Reason = ocsp.AACompromise
+	case "revoked-reason-hold-at-after-signing":
+		spec.Reason = ocsp.CertificateHold
+		t := stRef.Add(10 * time.Minute)
+		spec.RevokedAt = &t
 	case "revoked-at-after-signing":
 		// revoked only after the signing time, and the answer carries no invalidity date: still Revoked
 		t := stRef.Add(10 * time.Minute)
